@@ -329,6 +329,35 @@ func ruleGlobalsInitOnly(c *Ctx, rule string, pkgs []string) {
 				}
 			}
 			if g == nil {
+				// a package-level array or slice used as append/copy destination (scratch storage kept between calls)
+				if call, ok := ins.(*ssa.Call); ok {
+					if b, isB := call.Call.Value.(*ssa.Builtin); isB && (b.Name() == "append" || b.Name() == "copy") && len(call.Call.Args) > 0 {
+						base := call.Call.Args[0]
+						for i := 0; i < 6; i++ {
+							if sl, ok := base.(*ssa.Slice); ok {
+								base = sl.X
+								continue
+							}
+							if phi, ok := base.(*ssa.Phi); ok && len(phi.Edges) > 0 {
+								// a loop-carried slice that starts as a slice of the global
+								for _, e := range phi.Edges {
+									if _, isSl := e.(*ssa.Slice); isSl {
+										base = e
+									}
+								}
+								continue
+							}
+							break
+						}
+						if gg, ok := base.(*ssa.Global); ok {
+							g, what = gg, "used as "+b.Name()+" destination (storage shared between calls)"
+						} else if gg := loadOfGlobal(base); gg != nil {
+							g, what = gg, "used as "+b.Name()+" destination (storage shared between calls)"
+						}
+					}
+				}
+			}
+			if g == nil {
 				// the address of a package-level variable handed to a call (method call on a
 				// global such as sync.Map.Store, or &global passed on): hidden shared state
 				if ci, ok := ins.(ssa.CallInstruction); ok {
